@@ -91,6 +91,12 @@ var c07Items = []c07Item{
 		}
 		return t, true
 	}},
+	// two aggregates over different expression arguments in one item
+	{"sum(v * 2) + sum(w2 * 3) AS ee", "ee", func(g c07Group) (float64, bool) {
+		a, ok := agg1(ref.Sum, g.V)
+		b, ok2 := agg1(ref.Sum, g.W2)
+		return a*2 + b*3, ok && ok2
+	}},
 	// the same aggregate on two columns
 	{"sum(v) - sum(w2) AS sd2", "sd2", func(g c07Group) (float64, bool) {
 		a, ok := agg1(ref.Sum, g.V)
@@ -223,7 +229,7 @@ func hasAll(items []int, need []int) bool {
 }
 
 func c07Progs(tier string) []c07Prog {
-	itemSets := [][]int{{0}, {1}, {2}, {3}, {4}, {5}, {6}, {8}, {9}, {10}, {11}, {12}, {13}, {0, 7}, {0, 1, 4}, {7, 0, 2}, {0, 6, 7}, {8, 4}, {13, 0}, {9, 10, 12}, {11, 0}}
+	itemSets := [][]int{{0}, {1}, {2}, {3}, {4}, {5}, {6}, {8}, {9}, {10}, {11}, {12}, {13}, {14}, {0, 7}, {0, 1, 4}, {7, 0, 2}, {0, 6, 7}, {8, 4}, {14, 0}, {9, 10, 12}, {11, 0}, {13, 5}}
 	var out []c07Prog
 	for _, its := range itemSets {
 		for h := range c07Havings {
